@@ -119,7 +119,7 @@ Theorem equivocation_flags : forall v m thr k w s h0,
   m_status m = Same -> m_novote m = false ->
   m_round m = round_of v -> m_idx m = v_idx v ->
   (m_type m = V.Certificate -> certp_ok E = true) ->
-  m_sig m = true -> m_stake m = Some (thr, k) -> cred_ok v m = true ->
+  m_sig m = true -> m_stake m = Some (thr, k) -> cred_ok E v m = true ->
   get_wrapper (v_ws v) (m_round m, m_idx m) = Some w ->
   wsta w k (m_type m) = Some s ->
   aget (vs_addrs s) (m_sender m) = Some (mkAS h0 false) ->
@@ -132,24 +132,38 @@ Proof.
   destruct (w_addr_info_different w (m_type m) k (m_sender m) (m_hash m) s h0 Hs Ha Hne Hnx)
     as (w1 & s1 & Hai & Hs1 & Hdv).
   exists w1, s1. split; [|split; assumption].
-  unfold process. rewrite Hst, Hnv, Hsig, Hstake, Hcred, Hr, Hi, !N.eqb_refl. cbn [andb negb orb].
+  assert (Hverdict : cred_verdict E v m = CvOk).
+  { unfold cred_ok in Hcred. destruct (cred_verdict E v m); [reflexivity|discriminate|discriminate]. }
+  unfold process. rewrite Hst, Hnv, Hsig, Hstake, Hverdict, Hr, Hi, !N.eqb_refl. cbn [andb negb orb].
   assert (Hc : vt_eqb (m_type m) V.Certificate && negb (certp_ok E) = false).
   { destruct (vt_eqb (m_type m) V.Certificate) eqn:Et; [|reflexivity].
     apply vt_eqb_eq in Et. rewrite (Hcp Et). reflexivity. }
   rewrite Hc. rewrite <- Hr, <- Hi. rewrite Hg. cbn [andb negb orb]. rewrite Hg. rewrite Hai.
-  destruct (negb (vt_eqb (m_type m) V.NextIndex) && evid_on E); cbn [fst v_ws set_ws];
+  match goal with
+  | |- context [if ?c then set_over _ _ else _] => destruct c
+  end;
+  destruct (negb (vt_eqb (m_type m) V.NextIndex) && evid_on E); cbn [fst v_ws set_ws set_over];
     apply (get_set_wrapper _ _ _ _ Hg).
 Qed.
 
 End Top.
 
 (* ---- Server.verifySortition ----------------------------------------------------------------- *)
-Lemma fresh_credential_sound v m b :
-  m_cred m = CredVrf b -> cred_ok v m = true ->
+Lemma fresh_credential_sound E v m b :
+  m_cred m = CredVrf b -> cred_ok E v m = true ->
   fst (v_srv v) <= m_round m -> snd (v_srv v) <= m_idx m -> b = true.
 Proof.
-  unfold cred_ok, server_verify. intros -> Hc Hr Hi.
-  destruct b; [reflexivity|]. cbn in Hc. lia.
+  unfold cred_ok, cred_verdict, server_verify. intros -> Hc Hr Hi.
+  destruct b; [reflexivity|]. cbn [orb] in Hc.
+  assert ((m_round m <? fst (v_srv v)) || (m_idx m <? snd (v_srv v)) = false) as Hf by lia.
+  rewrite Hf in Hc. discriminate Hc.
+Qed.
+
+Lemma repaired_credential_sound E v m b :
+  fix_stale E = true -> m_cred m = CredVrf b -> cred_ok E v m = true -> b = true.
+Proof.
+  unfold cred_ok, cred_verdict. intros Hfix -> Hc. destruct b; [reflexivity|].
+  rewrite Hfix in Hc. destruct (server_verify false (m_round m) (m_idx m) (v_srv v)); discriminate Hc.
 Qed.
 
 Lemma stale_credential_accepted : forall mr mi sr si,
@@ -170,13 +184,14 @@ Proof.
 Qed.
 
 (* ---- the two findings ------------------------------------------------------------------------- *)
-Definition commit_verifies_full : Prop :=
+Definition commit_verifies_full (repaired : bool) : Prop :=
   forall E Hp o v' ev c r i h cp hp cc,
+    fix_latch E = repaired ->
     step E (run_state E Hp) o = (v', ev, c) ->
     In (ECommit r i h cp hp cc) ev ->
     exists thr, thr_src E (Hp ++ [o]) r i V.Precommit thr /\ verify_votes (map pv_of cp) thr true = true.
 
-Definition w_env : env := mkEnv 0 [] true false.
+Definition w_env : env := mkEnv 0 [] true false false false.
 Definition w_msg (t : vtype) (h a n : N) : op :=
   Msg (mkMsg Same t 32768 1 h 1 a true n false (Some (4, Chamber)) (CredGiven true)).
 Definition w_hist : list op :=
@@ -185,14 +200,14 @@ Definition w_hist : list op :=
    w_msg V.Precommit 2 1 1].                             (* sender 1 equivocates: 1 seat left *)
 Definition w_last : op := w_msg V.Certificate 1 3 2.     (* certificate quorum: commit *)
 
-Lemma commit_verifies_refuted : ~ commit_verifies_full.
+Lemma commit_verifies_refuted : ~ commit_verifies_full false.
 Proof.
   intros Hf.
   remember (step w_env (run_state w_env w_hist) w_last) as res eqn:Hs.
   assert (Hev : snd (fst res) = [ECommit 32768 1 1 [(2, 1)] [] [(3, 2)]]).
   { rewrite Hs. vm_compute. reflexivity. }
   destruct res as [[v' ev] c]. cbn in Hev. subst ev. symmetry in Hs.
-  destruct (Hf _ _ _ _ _ _ _ _ _ _ _ _ Hs (or_introl eq_refl)) as (thr & Hsrc & Hv).
+  destruct (Hf w_env _ _ _ _ _ _ _ _ _ _ _ eq_refl Hs (or_introl eq_refl)) as (thr & Hsrc & Hv).
   assert (thr = 4) as ->.
   { destruct Hsrc as [(m & Hin & _ & _ & _ & Hst)|(n0 & Ho)]; [|discriminate Ho].
     cbn in Hin.
@@ -202,14 +217,18 @@ Proof.
   vm_compute in Hv. discriminate Hv.
 Qed.
 
-Definition credentials_full : Prop :=
-  forall v m b, m_cred m = CredVrf b -> cred_ok v m = true -> b = true.
+(* every credential the voter's check accepts is VRF-valid, for trees with / without the repair *)
+Definition credentials_full (repaired : bool) : Prop :=
+  forall E v m b, fix_stale E = repaired -> m_cred m = CredVrf b -> cred_ok E v m = true -> b = true.
 
-Lemma credentials_refuted : ~ credentials_full.
+Lemma credentials_refuted : ~ credentials_full false.
 Proof.
   intros Hf.
-  specialize (Hf (set_srv init_voter (5, 2))
+  specialize (Hf (mkEnv 0 [] true false false false) (set_srv init_voter (5, 2))
                  (mkMsg Same V.Prevote 5 1 1 1 1 true 100 false (Some (4, Chamber)) (CredVrf false))
-                 false eq_refl eq_refl).
+                 false eq_refl eq_refl eq_refl).
   discriminate Hf.
 Qed.
+
+Lemma credentials_repaired : credentials_full true.
+Proof. intros E v m b Hfix. apply repaired_credential_sound. exact Hfix. Qed.
